@@ -164,6 +164,32 @@ def simplify(case):
             yield c
 
 
+def real_pool_case(case):
+    """get_svh through the real multiprocessing.Pool (2 or 3 workers) against mp=False on a fixed-seed input with
+    many hyperedges per size.  Returns a violation dict or None."""
+    sut()
+    import hypergraphx.filters.statistical_filters as SF
+
+    rng = random.Random(1000 + case["k"])
+    spec = _gen.rand_hypergraph_spec(rng, nmin=8, nmax=9, emin=12, emax=20, smin=2, smax=3, labels="int")
+    weights = [rng.choice([1, 2, 3]) for _ in spec["edges"]]
+    h = _gen.build_hypergraph(spec, weights=weights, weighted=True)
+    saved = SF.cpu_count
+    SF.cpu_count = lambda: 2 + case["k"] % 2
+    try:
+        with contextlib.redirect_stdout(io.StringIO()):
+            a = _table(SF.get_svh(h, max_order=5, mp=True))
+            b = _table(SF.get_svh(h, max_order=5, mp=False))
+    except Exception as e:  # noqa
+        return {"sig": "C19/svh/real-pool-raised", "detail": {"exception": repr(e)}}
+    finally:
+        SF.cpu_count = saved
+    if a != b:
+        return {"sig": "C19/svh/real-pool-differs-from-sequential", "detail": {"workers": 2 + case["k"] % 2,
+                "parallel": short(a, 400), "sequential": short(b, 400), "edges": short(spec["edges"], 300)}}
+    return None
+
+
 def real_pool_smoke():
     """One call through the real multiprocessing.Pool keeps the stub honest."""
     sut()
